@@ -130,6 +130,14 @@ struct Explorer
   // explores everything below it.  Prefixes that failed or crashed have no subtree.
   static void explore(int depth, int ls)
   {
+    // Declared pruning: if the wrapper is statically under-aligned, every payload access inside
+    // {char, Optional} is misaligned and aborts; the static check already reports the defect, so
+    // this configuration is only confirmed on all histories of depth <= 2 (each abort costs a
+    // fork).  With a suitably aligned Optional the full depth is explored like everywhere else.
+    if (OFFSET && alignof(typename Exec<P, OFFSET>::Opt) < alignof(typename P::T)) {
+      vr::note(pname() + ": alignof(Optional<T>) < alignof(T), exploring the {char, Optional} holder to depth 2 only (declared)");
+      depth = 2;
+    }
     if (ls >= depth)
       ls = depth - 1;
     std::vector<std::pair<std::vector<Op>, long long>> pre;
